@@ -172,6 +172,7 @@ theorem probe_clause_match {c : Clause} (h : c.extractsNothing = true) (w : Wind
     OPTIONAL) — which is the reference's join of the row with the clause. -/
 theorem probe_spec {F : Facts} (hF : Facts.WF F = true) (hg : GraphsOK F gs) (U : Universe gs)
     {c c' : Clause} {lo lo' : QOpts} {r : Row} (hr : RowOK U r) (hwf : ClauseWF c) (hcin : ClauseIn U c)
+    (hno : c.oLowerAlias = [] ∧ c.oUpperAlias = [])
     (hfil : lo.filter = none) (hsp : specialise r c lo = .ok (c', lo')) (hex : c'.extractsNothing = true)
     (rows : List Row) (hfe : simpleFetch F gs { c' with sAlias := existsAlias } lo' 0 = .ok rows) :
     SetEq (if (!rows.isEmpty || c.optional) = true then [r] else [])
@@ -225,7 +226,7 @@ theorem probe_spec {F : Facts} (hF : Facts.WF F = true) (hg : GraphsOK F gs) (U 
     have : c.bindings.filter (fun k => !r.has k) = [] := by
       apply List.filter_eq_nil_iff.mpr
       intro k hk
-      obtain ⟨hne', hor⟩ := bindings_of_nothing hexc hwf.noObjAliases k hk
+      obtain ⟨hne', hor⟩ := bindings_of_nothing hexc hno k hk
       obtain ⟨p1, p2⟩ := specialise_present hsp hwf.alias
       rcases hor with e | e
       · rcases p1 with q | q
@@ -266,7 +267,7 @@ theorem probe_spec {F : Facts} (hF : Facts.WF F = true) (hg : GraphsOK F gs) (U 
     · simp only [hopt, List.isEmpty_cons, Bool.not_false, Bool.true_or, if_true, Bool.false_eq_true, if_false]
       exact hres
 
-/-- Without object bound aliases (what `ClauseWF` says) the object's interval is the clause's own. -/
+/-- Without object bound aliases the object's interval is the clause's own. -/
 theorem specialiseO_eq {c : Clause} (h : c.oLowerAlias = [] ∧ c.oUpperAlias = []) (r : Row) (lo : QOpts) :
     specialiseO r c lo = specialise r c lo := by
   unfold specialiseO
@@ -287,11 +288,12 @@ theorem specialiseO_eq {c : Clause} (h : c.oLowerAlias = [] ∧ c.oUpperAlias = 
 /-- **One row of `specifyClauseWithTable`.** Specialising the clause with a row, fetching and joining
     (or probing) gives the reference's join of that row with the clause. -/
 theorem addSpecifiedData_spec {F : Facts} (hF : Facts.WF F = true) (hg : GraphsOK F gs) (U : Universe gs)
-    {c : Clause} {lo : QOpts} {r : Row} (hr : RowOK U r) (hwf : ClauseWF c) (hcin : ClauseIn U c)
+    {c : Clause} {lo : QOpts} {r : Row} (hr : RowOK U r) (hwf : ClauseWF c) (hno : c.oLowerAlias = [] ∧ c.oUpperAlias = [])
+    (hcin : ClauseIn U c)
     (hfil : lo.filter = none) (out : List Row) (h : addSpecifiedData F gs r c lo 0 = .ok out) :
     SetEq out (specJoin (gs.flatMap scanOf) (nl lo.lower) (nl lo.upper) c r) ∧ ∀ r' ∈ out, RowOK U r' := by
   unfold addSpecifiedData at h
-  rw [specialiseO_eq hwf.noObjAliases] at h
+  rw [specialiseO_eq hno] at h
   cases hsp : specialise r c lo with
   | error e => simp [hsp, bind, Except.bind] at h
   | ok p =>
@@ -304,7 +306,7 @@ theorem addSpecifiedData_spec {F : Facts} (hF : Facts.WF F = true) (hg : GraphsO
       | ok rows =>
         simp only [hfe, pure, Except.pure, Except.ok.injEq] at h
         subst h
-        refine ⟨probe_spec hF hg U hr hwf hcin hfil hsp hex rows hfe, ?_⟩
+        refine ⟨probe_spec hF hg U hr hwf hcin hno hfil hsp hex rows hfe, ?_⟩
         intro r' hr'
         split at hr'
         · simp only [List.mem_singleton] at hr'; subst hr'; exact hr
@@ -317,38 +319,5 @@ theorem addSpecifiedData_spec {F : Facts} (hF : Facts.WF F = true) (hg : GraphsO
         simp only [hfe, pure, Except.pure, Except.ok.injEq] at h
         subst h
         exact joinRow_spec hF hg U hr hwf hcin hfil hsp hex' fetched hfe
-
-/-- All rows: `specifyAll` is the reference's join step. -/
-theorem specifyAll_spec {F : Facts} (hF : Facts.WF F = true) (hg : GraphsOK F gs) (U : Universe gs)
-    {c : Clause} {lo : QOpts} (hwf : ClauseWF c) (hcin : ClauseIn U c) (hfil : lo.filter = none) :
-    ∀ (rows out : List Row), (∀ r ∈ rows, RowOK U r) → specifyAll F gs c lo 0 rows = .ok out →
-      SetEq out (joinClause (gs.flatMap scanOf) (nl lo.lower) (nl lo.upper) rows c) ∧ ∀ r' ∈ out, RowOK U r' := by
-  intro rows
-  induction rows with
-  | nil =>
-    intro out _ h
-    simp only [specifyAll, Except.ok.injEq] at h
-    subst h
-    exact ⟨SetEq.refl _, fun _ h => by cases h⟩
-  | cons r rows ih =>
-    intro out hrs h
-    simp only [specifyAll] at h
-    cases ha : addSpecifiedData F gs r c lo 0 with
-    | error e => simp [ha] at h
-    | ok a =>
-      simp only [ha] at h
-      cases hb : specifyAll F gs c lo 0 rows with
-      | error e => simp [hb] at h
-      | ok b =>
-        simp only [hb, Except.ok.injEq] at h
-        subst h
-        obtain ⟨sa, oa⟩ := addSpecifiedData_spec hF hg U (hrs r List.mem_cons_self) hwf hcin hfil a ha
-        obtain ⟨sb, ob⟩ := ih b (fun x hx => hrs x (List.mem_cons_of_mem _ hx)) hb
-        rw [joinClause_eq, List.flatMap_cons]
-        refine ⟨SetEq.append sa (by rw [← joinClause_eq]; exact sb), ?_⟩
-        intro r' hr'
-        rcases List.mem_append.mp hr' with h1 | h1
-        · exact oa r' h1
-        · exact ob r' h1
 
 end BW.Proofs.Planner
